@@ -6,7 +6,7 @@ CONSTANTS Alphabet, MaxLen
 VARIABLE s
 
 \* C11: ASCII, ESC, DEL, every UTF-8 lead / continuation class boundary, C1 range, 0xFF
-A11 == {97, 27, 127, 128, 133, 143, 144, 159, 160, 189, 191, 192, 194, 223, 224, 225, 237, 238, 239, 240, 241, 244, 245, 255}
+A11 == {97, 27, 127, 128, 133, 143, 144, 159, 160, 189, 191, 192, 194, 223, 224, 225, 237, 238, 239, 240, 241, 244, 245, 255, 254, 0}   \* 254, 0: so that every byte-order mark (and nothing but the mark) is spelled
 \* C07: binary-data bytes and their non-binary neighbours, BOM bytes
 A07 == {97, 0, 8, 9, 10, 11, 12, 14, 26, 27, 28, 31, 32, 239, 187, 191, 254, 255}
 
